@@ -1460,6 +1460,44 @@ example : fileTermOrdOrNext (fun _ => some 1) id (openFile (finishFile (frameBlo
       ([1, 2, 3] ++ storeBytes [⟨7, 5, 1, 3, ⟨0, 0, 7⟩, [⟨1, 7, 14⟩], 14⟩] ++ u64enc 3) 2 3)) [8]
     = some none := by decide
 
+/-- `Dictionary::get` composed down to the BYTES of a whole written file with several blocks, as
+`C15_file_term_ord`: for every sorted map, block length, value codec (`skip` drops the value block
+of a payload, `vals` decodes it) and every FST meeting the stated contract, `get` on the bytes IS
+the specification `get m k`. -/
+theorem C15_file_get {V} (blockLen : Nat) (m : Assoc V) (hs : SortedMap m) (f : FstIndex)
+    (hf : FstContract f) (hkeys : f.keys = (build blockLen m).blocks.map (·.sep))
+    (hmulti : (build blockLen m).single = false)
+    (skip : List UInt8 → List UInt8) (vals : List UInt8 → List V) (ps : List (List UInt8))
+    (hlen : ps.length = (build blockLen m).blocks.length)
+    (hskip : ∀ (i : Nat) p b, ps[i]? = some p → (build blockLen m).blocks[i]? = some b →
+      skip p = encodeBlockKeys (keys b.entries) ∧ vals p = b.entries.map (·.2))
+    (hpsz : ∀ p ∈ ps, p ≠ [] ∧ p.length + 1 < 4294967296)
+    (hok : WriterStoreOk (frameAddrs (keyBlocks (build blockLen m)) ps))
+    (fst : List UInt8) (numTerms version : Nat)
+    (hfst0 : fst.length ≠ 0) (hfst : fst.length < 18446744073709551616)
+    (hdata : (frameBlocks ps).length < 18446744073709551616)
+    (hn : numTerms < 18446744073709551616) (hv : version < 4294967296) (k : Key) :
+    fileGet f.geFirst skip vals
+        (openFile (finishFile (frameBlocks ps)
+          (fst ++ storeBytes (writerStore (frameAddrs (keyBlocks (build blockLen m)) ps)) ++ u64enc fst.length)
+          numTerms version)) k
+      = some (SSTable.get m k) := by
+  rw [file_get blockLen m hs f hf hkeys hmulti skip vals ps hlen hskip hpsz hok fst numTerms version
+    hfst0 hfst hdata hn hv k, refine_get blockLen m hs k]
+
+/-- the payload hypotheses are met by the monotonic-u64 codec: value block `serU64Mono`, then the
+front-coded keys -/
+theorem C15_file_get_u64_payload (vs : List Nat) (ksb : List Key) (hv : MonoFrom 0 vs) :
+    (loadU64Mono (serU64Mono vs ++ encodeBlockKeys ksb)).2 = encodeBlockKeys ksb ∧
+    (loadU64Mono (serU64Mono vs ++ encodeBlockKeys ksb)).1 = vs := by
+  rw [loadU64Mono_ser vs _ hv]
+  exact ⟨rfl, rfl⟩
+
+example : fileGet (fun _ => some 1) id (fun p => (decodeBlockKeys p).map (fun _ => ()))
+      (openFile (finishFile (frameBlocks [[16, 7], [16, 9]])
+        ([1, 2, 3] ++ storeBytes [⟨7, 5, 1, 3, ⟨0, 0, 7⟩, [⟨1, 7, 14⟩], 14⟩] ++ u64enc 3) 2 3)) [9]
+    = some (some ()) := by decide
+
 /-! ## non-vacuity -/
 
 example : StrictInc [[], [0], [0, 0], [0, 255], [1], [255, 255]] :=
